@@ -117,6 +117,27 @@ Theorem C02_half_step_bfloat16 : C02_half_step_float_statement 8 128 NumB16.
 Proof. exact (affine_half_step_float 8 128 Hp8 Hpe8 ltac:(lia) ltac:(lia)). Qed.
 Print Assumptions C02_half_step_bfloat16.
 
+(* (6) IEEE arithmetic, last sentence of the property - requantization stability, int2 / int4, all three working
+       formats (bfloat16 included: |c - zp| <= 15 keeps the two roundings far below a half): for EVERY finite positive
+       scale with a representable grid, every integer zero-point and every code c of [0, L], the dequantized value
+       s * (c - zp), quantized again with the same scale and zero-point, gives back exactly c. *)
+From QV Require Import Proofs.AffineRequant.
+Definition C02_requant_statement (prec emax : Z) (NF : Num (binary_float prec emax)) : Prop :=
+  forall (bits : Z) (s : binary_float prec emax) (zi c : Z),
+  let L := 2 ^ bits - 1 in let ofZ := @n_of_Z _ NF in
+  1 <= bits <= 4 -> 0 <= zi <= L -> 0 <= c <= L ->
+  is_finite s = true -> (0 < B2R s)%R -> (IZR L * B2R s <= Fmax prec emax)%R ->
+  @affq _ NF bits (@affdq _ NF s (ofZ c) (ofZ zi)) s (ofZ zi) = ofZ c.
+Theorem C02_requant_stable_float32 : C02_requant_statement 24 128 Num32.
+Proof. exact (affine_requant_stable 24 128 Hp24 Hpe24 ltac:(lia) ltac:(lia)). Qed.
+Print Assumptions C02_requant_stable_float32.
+Theorem C02_requant_stable_float16 : C02_requant_statement 11 16 Num16.
+Proof. exact (affine_requant_stable 11 16 Hp11 Hpe11 ltac:(lia) ltac:(lia)). Qed.
+Print Assumptions C02_requant_stable_float16.
+Theorem C02_requant_stable_bfloat16 : C02_requant_statement 8 128 NumB16.
+Proof. exact (affine_requant_stable 8 128 Hp8 Hpe8 ltac:(lia) ltac:(lia)). Qed.
+Print Assumptions C02_requant_stable_bfloat16.
+
 (* non-vacuity of (5), float16: x = 0.3, s = 0.01 (grid step), zero-point 7, int4: code 15 (saturated at the
    upper end: 0.3/0.01 + 7 = 37 > 15); x = 0.05: code 12 *)
 Example C02_float_example :
